@@ -490,6 +490,7 @@ func (c *cmp) static(path string, wv, gv reflect.Value, strictDyn bool) error {
 				return nil
 			}
 		}
+		usedKeys := map[unsafe.Pointer]bool{} // result keys already matched to a pointer key of the original
 		it := wv.MapRange()
 		for it.Next() {
 			g := gv.MapIndex(it.Key())
@@ -502,16 +503,60 @@ func (c *cmp) static(path string, wv, gv reflect.Value, strictDyn bool) error {
 				// ... and a null key may come back as the key ""
 				g = gv.MapIndex(reflect.ValueOf(""))
 			}
+			if !g.IsValid() && isNaNKey(it.Key()) {
+				// NaN never equals itself (MapIndex cannot find it): a NaN key is found by walking the entries
+				jt := gv.MapRange()
+				for jt.Next() {
+					if isNaNKey(jt.Key()) {
+						g = jt.Value()
+						break
+					}
+				}
+			}
 			if !g.IsValid() && isPointerKey(it.Key()) {
 				// a pointer used as a key (an object as a map key): the two maps hold different
 				// pointers; match the key by content
+				// (several keys may have equal content: prefer the key this pointer is already paired with,
+				// then an unused key whose value matches too, then any unused key with equal content)
+				wp := keyPointer(it.Key())
+				var fallback reflect.Value
+				var chosen reflect.Value
 				for _, gk := range gv.MapKeys() {
-					if isPointerKey(gk) {
-						sub := &cmp{nameMap: c.nameMap, w2g: map[unsafe.Pointer]unsafe.Pointer{}, g2w: map[unsafe.Pointer]unsafe.Pointer{}}
-						if sub.static(path, it.Key(), gk, strictDyn) == nil {
-							g = gv.MapIndex(gk)
+					if !isPointerKey(gk) || usedKeys[keyPointer(gk)] {
+						continue
+					}
+					if paired, ok := c.w2g[wp]; ok {
+						if paired == keyPointer(gk) {
+							chosen = gk
 							break
 						}
+						continue
+					}
+					if _, taken := c.g2w[keyPointer(gk)]; taken {
+						continue
+					}
+					sub := &cmp{nameMap: c.nameMap, w2g: map[unsafe.Pointer]unsafe.Pointer{}, g2w: map[unsafe.Pointer]unsafe.Pointer{}}
+					if sub.static(path, it.Key(), gk, strictDyn) != nil {
+						continue
+					}
+					if !fallback.IsValid() {
+						fallback = gk
+					}
+					sub2 := &cmp{nameMap: c.nameMap, w2g: map[unsafe.Pointer]unsafe.Pointer{}, g2w: map[unsafe.Pointer]unsafe.Pointer{}}
+					if sub2.static(path, it.Value(), gv.MapIndex(gk), strictDyn) == nil {
+						chosen = gk
+						break
+					}
+				}
+				if !chosen.IsValid() {
+					chosen = fallback
+				}
+				if chosen.IsValid() {
+					usedKeys[keyPointer(chosen)] = true
+					g = gv.MapIndex(chosen)
+					// the key objects take part in the aliasing relation like any other object
+					if err := c.static(fmt.Sprintf("%s[key]", path), it.Key(), chosen, strictDyn); err != nil {
+						return err
 					}
 				}
 			}
@@ -541,6 +586,24 @@ func (c *cmp) static(path string, wv, gv reflect.Value, strictDyn bool) error {
 		return c.dyn(path, we, ge)
 	default:
 		return fail(path, "comparator: unsupported kind %v", wv.Kind())
+	}
+	return nil
+}
+
+func isNaNKey(k reflect.Value) bool {
+	for k.Kind() == reflect.Interface && !k.IsNil() {
+		k = k.Elem()
+	}
+	return (k.Kind() == reflect.Float64 || k.Kind() == reflect.Float32) && k.Float() != k.Float()
+}
+
+// keyPointer is the address a pointer-valued map key holds (through an interface, if any).
+func keyPointer(k reflect.Value) unsafe.Pointer {
+	for k.Kind() == reflect.Interface && !k.IsNil() {
+		k = k.Elem()
+	}
+	if k.Kind() == reflect.Ptr {
+		return k.UnsafePointer()
 	}
 	return nil
 }
